@@ -1,3 +1,4 @@
+use std::io::Write;
 use std::path::PathBuf;
 use std::{collections::HashMap, fs};
 
@@ -8,7 +9,42 @@ use rayon::prelude::*;
 use crate::model::{Content, State};
 
 pub fn write_file(key: &String, content: &Content, to: &PathBuf) -> std::io::Result<()> {
-    fs::write(to.clone().join(format!("{}.md", key)), content.as_str())
+    let path = to.clone().join(format!("{}.md", key));
+
+    // Write to a new sibling temporary file and rename it over the note, so that a failed
+    // or interrupted write (disk full, quota, kill) never leaves a truncated note behind.
+    let (tmp, mut file) = create_temporary(&path)?;
+
+    let result = file
+        .write_all(content.as_bytes())
+        .and_then(|_| match fs::metadata(&path) {
+            Ok(metadata) => fs::set_permissions(&tmp, metadata.permissions()),
+            Err(_) => Ok(()),
+        })
+        .and_then(|_| {
+            drop(file);
+            fs::rename(&tmp, &path)
+        });
+
+    if result.is_err() {
+        let _ = fs::remove_file(&tmp);
+    }
+
+    result
+}
+
+// `<name>.md.<n>.tmp` next to the note, never an existing file
+fn create_temporary(path: &PathBuf) -> std::io::Result<(PathBuf, fs::File)> {
+    let mut last_error = std::io::Error::from(std::io::ErrorKind::AlreadyExists);
+    for n in 0..100 {
+        let tmp = path.with_extension(format!("md.{}.tmp", n));
+        match fs::OpenOptions::new().write(true).create_new(true).open(&tmp) {
+            Ok(file) => return Ok((tmp, file)),
+            Err(error) if error.kind() == std::io::ErrorKind::AlreadyExists => last_error = error,
+            Err(error) => return Err(error),
+        }
+    }
+    Err(last_error)
 }
 
 pub fn new_for_path(base_path: &PathBuf) -> State {
